@@ -7,6 +7,7 @@ import Mahotas.Proofs.C07Order
 import Mahotas.Proofs.C07Erode
 import Mahotas.Proofs.C07Wrap
 import Mahotas.Proofs.C07Dilate
+import Mahotas.Properties.C01
 import Mathlib.Algebra.Order.Field.Basic
 import Mathlib.Algebra.Order.Field.Rat
 import Mathlib.Data.Rat.Cast.Order
@@ -459,3 +460,69 @@ example :
     rankSpecAt .nearest f fp2 3 [1, 1] = some 7 ∧
     C01.dilateSpecAt dt f (fp2.map fun k => (k, 0)) [1, 1] = 3 := by
   decide
+
+/-- **C07-R3k (the last rank = the output of the `dilate` kernel, where C01 proves kernel = definition).**
+Let `dt` be a signed integer dtype, `f` a completely stored image with positive axis lengths and all
+values in the dtype range, `fp` a non-empty list of neighbourhood offsets whose reflections `−k` are
+offsets of an element box `bshape` of the image's rank, and `p` a pixel of the image such that either
+the reflected support is coordinate-wise star-shaped (`C01.starShaped`, true of centred crosses, boxes,
+disks) or the box placed at `p` and its reflection lie inside the image (`C01.boxInterior`). Then
+`rank_filter(f, Bc, N2 − 1, mode='nearest')[p]` equals the cell of `p` in the model of the generic
+scatter kernel `dilate<T>` (`C01.dilateModel`, the definition C01's driver runs) applied to `f` and the
+flat structuring element with support `{−k : k ∈ fp}` and height 0
+(`C07_last_rank_is_flat_dilation` composed with `C01_dilate_eq_spec_where_observed`). -/
+theorem C07_last_rank_eq_dilate_kernel (dt : DT) (wf : dt.WF) (hlo : dt.lo ≠ 0) (f : Img Int)
+    (hs : ∀ d ∈ f.shape, 0 < d) (hsz : shapeSize f.shape ≤ f.data.size) (bshape : List Nat)
+    (hl : bshape.length = f.shape.length) (fp : List (List Int)) (hfp : fp ≠ [])
+    (hbox : ∀ k ∈ fp, negPos k ∈ C01.boxOffsets bshape) (hA : C01.ImageInRange dt f) (p : List Int)
+    (hp : inside f.shape p = true)
+    (hobs : C01.starShaped bshape (fp.map negPos) = true ∨ C01.boxInterior f.shape bshape p = true) :
+    rankAt .nearest f fp ((fp.length : Int) - 1) p =
+      some ((C01.dilateModel dt f (fp.map fun k => (negPos k, 0))).getD (ravelI f.shape p) dt.lo) := by
+  have hb : dt.isBool = false := wf.notBool
+  have hlen : ∀ k ∈ fp, k.length = f.shape.length := by
+    intro k hk
+    have := C01.boxOffsets_length bshape _ (hbox k hk)
+    rw [← hl, ← this]; simp [negPos]
+  have h0 : dt.InRange 0 := by
+    have := wf.hi_pos
+    rcases wf.lo_cases with h | h <;> unfold DT.InRange <;> omega
+  have hmem : (fp.map fun k => ((negPos k, 0) : List Int × Int)).filter (C01.isMember dt) =
+      fp.map fun k => ((negPos k, 0) : List Int × Int) := by
+    rw [List.filter_eq_self]
+    intro a ha
+    obtain ⟨k, _, rfl⟩ := List.mem_map.1 ha
+    simp [C01.isMember, hb, Ne.symm hlo]
+  rw [C07_last_rank_is_flat_dilation dt hb hlo f hs hsz fp hfp hlen p hp (fun k _ => hA _)]
+  congr 1
+  symm
+  apply C01_dilate_eq_spec_where_observed dt (Or.inl wf) f bshape _ p hs hl
+  · intro kh hkh
+    obtain ⟨k, hk, rfl⟩ := List.mem_map.1 hkh
+    exact hbox k hk
+  · exact hA
+  · intro kh hkh
+    obtain ⟨k, _, rfl⟩ := List.mem_map.1 hkh
+    exact ⟨h0, Or.inl (Int.le_refl 0), fun h => by rw [hb] at h; cases h⟩
+  · exact hp
+  · rw [hmem, List.map_map, List.map_map]
+    have hfl : C01.flatHeights (fp.map ((fun x : List Int × Int => x.2) ∘ fun k => (negPos k, 0))) = true := by
+      cases fp with
+      | nil => rfl
+      | cons a t => simp [C01.flatHeights]
+    have hst : (fp.map ((fun x : List Int × Int => x.1) ∘ fun k => (negPos k, 0))) = fp.map negPos := by
+      apply List.map_congr_left; intro k _; rfl
+    rw [hfl, hst]
+    rcases hobs with h | h <;> simp [h]
+
+/-- non-vacuity of `C07_last_rank_eq_dilate_kernel`: int8, 3×3 cross (symmetric, star-shaped) on the
+    2×2 image, every pixel; the scatter kernel of C01 and the last rank both give `[7, 7, 7, 5]` -/
+example :
+    let dt : DT := dtI 8
+    let f : Img Int := { shape := [2, 2], data := #[7, 1, 5, 3] }
+    let fp := footprint [3, 3] #[0, 1, 0, 1, 1, 1, 0, 1, 0]
+    dt.lo ≠ 0 ∧ (∀ d ∈ f.shape, 0 < d) ∧ shapeSize f.shape ≤ f.data.size ∧ fp ≠ [] ∧
+    (∀ k ∈ fp, negPos k ∈ C01.boxOffsets [3, 3]) ∧ C01.starShaped [3, 3] (fp.map negPos) = true ∧
+    (C01.dilateModel dt f (fp.map fun k => (negPos k, 0))).toList = [7, 7, 7, 5] ∧
+    (allPos f.shape).map (rankSpecAt .nearest f fp 4) = [some 7, some 7, some 7, some 5] := by
+  decide +kernel
